@@ -32,6 +32,7 @@ for p in "$@"; do
   v=$(grep -m1 '^VIOLATION' /tmp/seed/$ID.$p.log)
   echo "check $p: exit $rc ${v}" | tee -a $res
   rp=$(echo "$v" | sed -n 's/.*replay=\([^ ]*\).*/\1/p')
+  [ -n "$rp" ] && [ -f "$rp" ] && cp "$rp" $DST/replay-$p.json
   [ -n "$rp" ] && [ -f "$rp" ] && python3 - "$rp" >> $res <<'PY'
 import json,sys
 d=json.load(open(sys.argv[1]))
